@@ -1235,12 +1235,14 @@ def render_map() -> str:
 OUT_DICTANY = os.path.join(os.path.dirname(OUT), "DictAnySrc.lean")
 DVARS = {"key_": "keyU", "validator": "validator", "key_required": "keyRequired", "success_dict": "successDict",
          "errs": "errs", "success": "success", "new_val": "newVal", "result": "result",
-         "args": "args", "obj": "obj", "async_result": "asyncResult", "async_validator": "validator"}
+         "args": "args", "obj": "obj", "async_result": "asyncResult", "async_validator": "validator",
+         "coerced": "coerced", "coerced_val": "coercedVal", "result_async": "asyncResult"}
+DATTRS = {"is_just": "isJust", "val": "valA", "compatible_types": "compatibleTypes"}
 DSELF = {"_disallow_synchronous": "disallowSync", "__class__": "cls", "fail_on_unknown_keys": "failOnUnknownKeys",
-         "_keys_set": "keysSet", "_key_set": "keysSet", "into": "into", "_unknown_keys_err": "unknownKeysErr", "_fast_keys_sync": "fastKeysSync",
+         "_keys_set": "keysSet", "_key_set": "keysSet", "into": "into", "coerce": "coerce", "_unknown_keys_err": "unknownKeysErr", "_fast_keys_sync": "fastKeysSync",
          "_fast_keys_async": "fastKeysAsync", "validate_object": "validateObject",
          "validate_object_async": "validateObjectAsync"}
-DCTORS = {"TypeErr": ("mkTypeErr", 1), "KeyErrs": ("mkKeyErrs", 1), "Invalid": ("mkInvalid", 3),
+DCTORS = {"TypeErr": ("mkTypeErr", 1), "KeyErrs": ("mkKeyErrs", 1), "Invalid": ("mkInvalid", 3), "CoercionErr": ("mkCoercionErr", 2),
           "_raise_validate_object_async_in_sync_mode": ("raiseAsyncInSync", 1)}
 
 
@@ -1294,8 +1296,13 @@ class DTr:
         if isinstance(e, ast.Attribute) and isinstance(e.value, ast.Name) and e.value.id == "self":
             a = f".{DSELF[e.attr]}" if e.attr in DSELF else f"(.other {lstr(e.attr)})"
             return f"(.selfAttr {a})"
+        if isinstance(e, ast.Attribute):
+            a = f".{DATTRS[e.attr]}" if e.attr in DATTRS else f"(.other {lstr(e.attr)})"
+            return f"(.attr {self.exp(e.value)} {a})"
         if isinstance(e, ast.Call) and not e.keywords and not any(isinstance(a, ast.Starred) for a in e.args):
             f, args = e.func, e.args
+            if isinstance(f, ast.Name) and f.id == "cast" and len(args) == 2:
+                return self.exp(args[1])        # `typing.cast` returns its second argument
             if isinstance(f, ast.Name) and f.id in DCTORS and len(args) == DCTORS[f.id][1]:
                 return f"(.{DCTORS[f.id][0]} {' '.join(self.exp(a) for a in args)})"
             if len(args) == 1 and not (isinstance(f, ast.Name) and f.id not in DVARS):
@@ -1366,7 +1373,15 @@ def render_dictany() -> str:
                 if isinstance(item, ast.FunctionDef) and item.name == "__init__" and not item.decorator_list:
                     rinit = " ; ".join(ast.unparse(b).replace("\n", " ") for b in item.body
                                        if not (isinstance(b, ast.Expr) and isinstance(b.value, ast.Constant)))
-    lines += [f"def recordInit : String := {lstr(rinit)}", "", "end Koda.Src", ""]
+    lines += [f"def recordInit : String := {lstr(rinit)}", ""]
+    # TypedDictValidator: the same language
+    for meth, name in (("_validate_to_tuple", "typedDictSync"), ("_validate_to_tuple_async", "typedDictAsync")):
+        m = _find_method("typeddict.py", "TypedDictValidator", meth)
+        ok = (m is not None and [a.arg for a in m.args.args] == ["self", "data"] and not m.decorator_list
+              and isinstance(m, ast.AsyncFunctionDef) == meth.endswith("_async"))
+        term = DTr().block(m.body) if ok else '[.unsupported "not found / signature"]'
+        lines += [f"def {name} : List DStmt :=", f"  {term}", ""]
+    lines += ["end Koda.Src", ""]
     return "\n".join(lines)
 
 
